@@ -33,6 +33,11 @@ def run(R, ctx):
     provenance(R, ctx)
     predicate(R, ctx)
     ownership(R, ctx)
+    # foreign files never disturb the naming: a name collision is decided by the existence of exactly the logger's own candidates (plain, .gz,
+    # .restart siblings of the family) - not by a coarser listing a near miss can enter (shared with R06.4)
+    R.rule('R14.4', 'collision test examines exactly the own candidates: plain, .gz and family restart siblings (shared with R06.4)')
+    import c06 as _c06
+    _c06.collision_table(Relabel(R, {'R06.4': 'R14.4'}), ctx)
 
 
 def origin(ctx, body, op, depth=0, seen=None):
